@@ -218,7 +218,7 @@ type errorMark struct {
 
 // equalMarks compares two error markers.
 func equalMarks(m1, m2 errorMark) bool {
-	if m1.msg != m2.msg {
+	if m1.msg != m2.msg || len(m1.types) != len(m2.types) {
 		return false
 	}
 	for i, t := range m1.types {
